@@ -75,7 +75,9 @@ var contents = []content{
 
 type meta struct{ C, M, E, D int64 } // Created, Modified, Expires, Deleted
 
-func (m meta) String() string { return fmt.Sprintf("{C:%s M:%s E:%s D:%s}", ts(m.C), ts(m.M), ts(m.E), tsD(m.D)) }
+func (m meta) String() string {
+	return fmt.Sprintf("{C:%s M:%s E:%s D:%s}", ts(m.C), ts(m.M), ts(m.E), tsD(m.D))
+}
 
 // ts prints a timestamp relative to t0.
 func ts(v int64) string {
@@ -276,15 +278,54 @@ func keysFor(backend string) []string {
 
 type seedDef struct {
 	name string
-	recs map[string]entry
+	recs map[string]entry // initial storage content (written to the storage before the interface exists)
+	// pre: operations run through the interface under test before the explored history starts (non-initial
+	// interface states: pending delayed writes, evictions, a full cache). They are executed and checked like any step.
+	pre    func(keys []string) []string
+	caches string // cache modes the seed is used with ("" = all)
+}
+
+func (sd seedDef) usedWith(cfg config) bool {
+	return sd.caches == "" || strings.Contains(sd.caches, cfg.Cache)
+}
+
+// prefix resolves the seed's interface prefix to operation indexes of ops.
+func (sd seedDef) prefix(cfg config, ops []opDef) ([]int, error) {
+	if sd.pre == nil {
+		return nil, nil
+	}
+	var out []int
+	for _, n := range sd.pre(keysFor(cfg.Backend)) {
+		found := -1
+		for i, o := range ops {
+			if o.name == n {
+				found = i
+				break
+			}
+		}
+		if found < 0 {
+			return nil, fmt.Errorf("seed %s: no operation %q in configuration %v", sd.name, n, cfg)
+		}
+		out = append(out, found)
+	}
+	return out, nil
 }
 
 var seeds = []seedDef{
-	{"empty", nil},
-	{"live(a/b)", map[string]entry{"a/b": {contents[0], meta{C: t0 - 100, M: t0 - 100}}}},
-	{"shadow-deleted(a/b)", map[string]entry{"a/b": {contents[0], meta{C: t0 - 100, M: t0 - 50, D: t0 - 50}}}},
-	{"expired(a/b)", map[string]entry{"a/b": {contents[0], meta{C: t0 - 100, M: t0 - 100, E: t0 - 50}}}},
-	{"relative-expiry(a/b)", map[string]entry{"a/b": {contents[1], meta{C: t0 - 5, M: t0 - 5, E: t0 + 5, D: -10}}}},
+	{name: "empty"},
+	{name: "live(a/b)", recs: map[string]entry{"a/b": {contents[0], meta{C: t0 - 100, M: t0 - 100}}}},
+	{name: "shadow-deleted(a/b)", recs: map[string]entry{"a/b": {contents[0], meta{C: t0 - 100, M: t0 - 50, D: t0 - 50}}}},
+	{name: "expired(a/b)", recs: map[string]entry{"a/b": {contents[0], meta{C: t0 - 100, M: t0 - 100, E: t0 - 50}}}},
+	{name: "relative-expiry(a/b)", recs: map[string]entry{"a/b": {contents[1], meta{C: t0 - 5, M: t0 - 5, E: t0 + 5, D: -10}}}},
+	// non-initial interface states (cache size is 2)
+	{name: "iface:three-puts-oldest-evicted", caches: "read,delayed", pre: func(k []string) []string {
+		return []string{"Put(" + k[0] + ",c1,typed)", "Put(" + k[1] + ",c2,wrapped)", "Put(" + k[2] + ",c1,typed)"}
+	}},
+	{name: "iface:put+cached-get-of-another-key", caches: "delayed", recs: map[string]entry{"a/b": {contents[0], meta{C: t0 - 100, M: t0 - 100}}},
+		pre: func(k []string) []string { return []string{"Put(" + k[0] + ",c2,wrapped)", "Get(a/b)"} }},
+	{name: "iface:cache-full-of-read-entries", caches: "read,delayed", recs: map[string]entry{
+		"a/b": {contents[0], meta{C: t0 - 100, M: t0 - 100}}, "b": {contents[1], meta{C: t0 - 90, M: t0 - 90}}},
+		pre: func(k []string) []string { return []string{"Get(a/b)", "Get(b)"} }},
 }
 
 type qdef struct {
@@ -987,6 +1028,7 @@ type runOut struct {
 	viol    *violation
 	log     []string
 	nontriv bool
+	evicted int // pending delayed writes that the last step (for a root: the seed's prefix) pushed out of the cache
 }
 
 var progress atomic.Int64 // watchdog
@@ -1064,9 +1106,19 @@ func runHistoryOnce(cfg config, seed seedDef, ops []opDef, hist []int, wantKey, 
 		layer = cfg.Cache + "-cache"
 	}
 	lastKind := "initial-state"
-	for step, oi := range hist {
+	pre, err := seed.prefix(cfg, ops)
+	if err != nil {
+		out.viol = &violation{clause: "ENGINE", detail: err.Error()}
+		return
+	}
+	full := append(append(make([]int, 0, len(pre)+len(hist)), pre...), hist...)
+	for step, oi := range full {
 		o := ops[oi]
 		lastKind = o.kind
+		var pending map[string]record.Record
+		if cfg.Cache == "delayed" {
+			pending = x.iface.VerifWriteCache()
+		}
 		var before map[string]string
 		isMaint := o.kind == "MaintainRecordStates" || o.kind == "Maintain"
 		if isMaint {
@@ -1121,6 +1173,18 @@ func runHistoryOnce(cfg config, seed seedDef, ops []opDef, hist []int, wantKey, 
 		if got.cls == "count" {
 			out.outcome = fmt.Sprintf("%s:count=%d", o.kind, got.n)
 		}
+		if len(pending) > 0 && o.kind != "Flush" && o.kind != "FlushCache" && (step == len(full)-1 || len(hist) == 0) {
+			// pending delayed writes that this step pushed out of the cache (the eviction handler writes them through)
+			inCache := map[string]bool{}
+			for _, ck := range x.iface.VerifCache().Keys(false) {
+				inCache[fmt.Sprint(ck)] = true
+			}
+			for k := range pending {
+				if !inCache[k] {
+					out.evicted++
+				}
+			}
+		}
 	}
 
 	// canonical state, before the probe touches the cache
@@ -1130,11 +1194,11 @@ func runHistoryOnce(cfg config, seed seedDef, ops []opDef, hist []int, wantKey, 
 			out.viol = &violation{clause: "ENGINE", detail: "raw: " + err.Error()}
 			return
 		}
-		full := fmt.Sprintf("%v|%s|M:%s|R:%s|C:%s", cfg, seed.name, m.dump(), dumpMap(raw), dumpCache(x.iface))
+		state := fmt.Sprintf("%v|%s|M:%s|R:%s|C:%s", cfg, seed.name, m.dump(), dumpMap(raw), dumpCache(x.iface))
 		if verbose {
-			logf("state: %s", full)
+			logf("state: %s", state)
 		}
-		h := sha256.Sum256([]byte(full))
+		h := sha256.Sum256([]byte(state))
 		out.key = hex.EncodeToString(h[:16])
 	}
 	invisible := 0
@@ -1356,15 +1420,14 @@ type succ struct {
 	NT   bool   `json:"t,omitempty"`
 }
 
-
 func applicable(o opDef, cfg config, dirty bool) bool {
 	return !(cfg.Cache == "delayed" && o.needClean && dirty)
 }
 
 // dirtyAfter computes the model's pending-delayed-write flag after a history (cheap: model only).
-func dirtyAfter(ops []opDef, hist []int) bool {
+func dirtyAfter(ops []opDef, pre, hist []int) bool {
 	d := false
-	for _, oi := range hist {
+	for _, oi := range append(append([]int{}, pre...), hist...) {
 		switch ops[oi].kind {
 		case "Put", "PutNew", "Resave":
 			d = true
@@ -1385,7 +1448,11 @@ func report(c *vlib.Ctx, cfg config, seed seedDef, ops []opDef, hist []int, v *v
 		return
 	}
 	site := v.site
-	detail := fmt.Sprintf("configuration %v, initial storage %s, history %v: %s", cfg, seed.name, names, v.detail)
+	start := seed.name
+	if seed.pre != nil {
+		start += fmt.Sprintf(" = interface prefix %v", seed.pre(keysFor(cfg.Backend)))
+	}
+	detail := fmt.Sprintf("configuration %v, initial state %s, history %v: %s", cfg, start, names, v.detail)
 	wcfg, wnames := cfg, names
 	// attribute the violation to the simplest cache mode in which the same history (without flushes) fails in the same clause
 	var simpler []string
@@ -1477,6 +1544,7 @@ func shardWork(c *vlib.Ctx, cfgs []config, opsFor func(config) []opDef) {
 					report(c, cfg, seed, ops, nd.Hist, r.viol, opsFor)
 					continue
 				}
+				outcomes["evicted-pending-write"] += int64(r.evicted)
 				out = append(out, succ{ni, -1, r.key, r.nontriv})
 				continue
 			}
@@ -1487,7 +1555,8 @@ func shardWork(c *vlib.Ctx, cfgs []config, opsFor func(config) []opDef) {
 			if lf.Last {
 				c.ExtraAdd("deepest_level_nodes_expanded", 1)
 			}
-			dirty := dirtyAfter(ops, nd.Hist)
+			pre, _ := seed.prefix(cfg, ops)
+			dirty := dirtyAfter(ops, pre, nd.Hist)
 			h := append(append(make([]int, 0, len(nd.Hist)+1), nd.Hist...), 0)
 			for oi, o := range ops {
 				if !applicable(o, cfg, dirty) {
@@ -1502,6 +1571,7 @@ func shardWork(c *vlib.Ctx, cfgs []config, opsFor func(config) []opDef) {
 					continue
 				}
 				outcomes[r.outcome]++
+				outcomes["evicted-pending-write"] += int64(r.evicted)
 				if !last {
 					out = append(out, succ{ni, oi, r.key, r.nontriv})
 				}
@@ -1552,6 +1622,9 @@ func watchdog() {
 			idle++
 			if idle >= 24 { // two minutes without finishing a history
 				fmt.Fprintf(os.Stderr, "WATCHDOG: no progress for 120 s while running %v\n", current.Load())
+				if rootDir != "" {
+					_ = os.RemoveAll(rootDir)
+				}
 				os.Exit(3)
 			}
 		}
@@ -1561,6 +1634,24 @@ func watchdog() {
 func main() {
 	vlib.Main("C02", "model_checking", func(c *vlib.Ctx) {
 		defer cleanupEnvs()
+		// schedule clause (iterator error hand-over): engine S on database/iterator
+		if !c.IsShard() {
+			if c.ReplayPart(`"c02/iterator`, "/verif/build/c02s") {
+				return
+			}
+			if c.Replay == "" {
+				tmp, hadTmp := os.LookupEnv("TMPDIR")
+				defer func() {
+					// the environments of this part point TMPDIR at a scratch location
+					if hadTmp {
+						os.Setenv("TMPDIR", tmp)
+					} else {
+						os.Unsetenv("TMPDIR")
+					}
+					c.RunPart("/verif/build/c02s")
+				}()
+			}
+		}
 		cfgs := allConfigs(c)
 		opsCache := map[string][]opDef{}
 		opsFor := func(cf config) []opDef {
@@ -1581,18 +1672,17 @@ func main() {
 			return
 		}
 
-		c.Rule("breadth-first search over histories of database.Interface operations on the real code, per configuration backend {hashmap,bbolt,fstree; thorough: badger} x shadow-delete {off,on} x cache {none, read cache size 2, delayed write cache size 2 (hashmap, bbolt)} and per initial storage content (empty, one live, one shadow-deleted, one expired record, one with a relative expiry); " +
+		c.Rule("breadth-first search over histories of database.Interface operations on the real code, per configuration backend {hashmap,bbolt,fstree; thorough: badger} x shadow-delete {off,on} x cache {none, read cache size 2, delayed write cache size 2 (hashmap, bbolt)} and per initial state: 5 storage contents (empty, one live, one shadow-deleted, one expired record, one with a relative expiry) and, behind a cache, 3 non-initial interface states reached by a fixed prefix run through the interface under test (three puts of which the oldest was evicted; a put plus a cached get of another key; a cache full of read entries); " +
 			"alphabet per configuration: Get, Put (typed struct / wrapped JSON twins, 2 contents), PutNew (record with stale metadata), Resave (Get then Put of the same object), Delete, SetAbsoluteExpiry (past, +10 s), SetRelativateExpiry(10), PutMany (2 batches of two records, one deleted), Purge (2 queries), 10 s / 20 s pass on the manual clock, MaintainRecordStates (threshold now / now-15 s), Maintain, FlushCache and Flush = one DelayedCacheWriter run ended by its context (delayed writes only), Put of an already deleted record over 4 keys sharing prefixes and a path separator; " +
 			"every history runs on a wiped database through a fresh Interface and on a map[string]entry model; after the last step Exists+Get of all 4 keys (cached keys first, so that the probe's own cache misses cannot evict a stale entry unseen) and 19 queries (5 key prefixes; all 18 operators; and/or/not nested to depth 2) are compared; states de-duplicated on (model, raw storage dump, ARC cache lists and entries, delayed write set); " +
-			"non-trivial = distinct reached states holding at least two records or at least one deleted/expired record. "+
+			"non-trivial = distinct reached states holding at least two records or at least one deleted/expired record. " +
 			"Plus two scenario families: bulk (N records in mixed states, N around bbolt's purge batch size 1000 and up to several B+tree pages, then Purge by prefix / by condition or MaintainRecordStates, compared with the model) and storage-error (a query that meets an unreadable raw record must end its stream and report through Iterator.Err())")
 		c.Assume("metadata semantics are those documented in record/meta.go: a save stamps Modified (and Created if unset) and recomputes Expires from a relative TTL; a TTL set through Interface.SetRelativateExpiry therefore takes effect at the next save (not asserted otherwise); a record is expired when now > Expires")
 		c.Assume("a backend that does not implement Purge / PutMany and answers ErrNotImplemented is taken as 'operation not offered' (no effect in the model); the count returned by Purge may or may not include expired records that were not yet deleted")
 		c.Assume("databases are reused between histories by wiping all records (hashmap: new map; bbolt: bucket dropped and re-created; fstree: directory emptied; badger: all keys deleted); the read cache's clock is replaced by the manual clock so that cache TTLs and record expiry run on the same clock, as they do in production")
 		c.Assume("the interface holds all permissions (Local+Internal), as PutMany and delayed writes require; permission clauses belong to C03. Through a delayed write cache, only Get/Put/PutNew/Resave/Delete/Flush/time are offered while a delayed write is pending; every other operation and all queries run after a flush")
 		c.Assume("portbase's own wall-clock timeouts (query executors: consumer must take a record within 1 s; PutMany: next record within 1 s) can only fire here when the process is starved of CPU, as the harness drains and feeds immediately; such a run is repeated (4 attempts) and otherwise reported as an engine error, never as a finding")
-		c.Assume("left to engine S: the iterator error hand-over interleaving clause")
-		c.Extra("depth_note", "history depth = max depth, except one less for badger (thorough) and for fstree behind a read cache in the quick tier")
+				c.Extra("depth_note", "history depth = max depth, except one less for badger (thorough) and for fstree behind a read cache in the quick tier")
 
 		if c.Replay != "" {
 			replay(c, opsFor)
@@ -1615,7 +1705,9 @@ func main() {
 		var frontier []node
 		for ci := range cfgs {
 			for si := 0; si < nSeeds; si++ {
-				frontier = append(frontier, node{ci, si, nil})
+				if seeds[si].usedWith(cfgs[ci]) {
+					frontier = append(frontier, node{ci, si, nil})
+				}
 			}
 		}
 		perCfgStates := map[string]int{}
